@@ -165,9 +165,71 @@ Proof.
   rewrite E1 at 2. rewrite (split_lead t1 _ B1). rewrite E2 at 2. rewrite (split_trail t2 _ B2). reflexivity.
 Qed.
 
-(* what validate_symbols makes of an alias: the lower-cased words of the alias joined by one space *)
-Theorem norm_alias_words a : norm_alias O a = join_sp (map (lower O) (split_ws O a)).
-Proof. unfold norm_alias, norm_spaces. rewrite split_strip, split_lower. reflexivity. Qed.
+(* ---- a text without parentheses: its words are what str.split() gives ---- *)
+Ltac setw W v := match goal with |- context [if ?b then _ else _] => replace b with v by (symmetry; exact W) end.
+Lemma words_split_acc : forall s start k acc pos,
+  (forall c, In c s -> is_space O c = false -> is_paren c = false) ->
+  (k = CText /\ acc <> [] /\ (forall c, In c acc -> cls_of O c = CText)) \/ (k = CSpace /\ acc <> [] /\ (forall c, In c acc -> is_space O c = true)) ->
+  map ptext (filter (is_word_piece O) (split_acc O start k acc pos s)) =
+  split_ws_acc O (match k with CText => acc | _ => [] end) s.
+Proof.
+  induction s as [|c s IH]; intros start k acc pos Hp Hk.
+  - cbn [split_acc filter map split_ws_acc]. destruct Hk as [[-> [Ha Hc]]|[-> [Ha Hc]]].
+    + assert (W : is_word_piece O {| pstart := start; ptext := rev acc |} = true).
+      { unfold is_word_piece, piece_cls. cbn [ptext]. destruct (rev acc) as [|x r] eqn:Er; [exfalso; apply (rev_ne _ Ha); exact Er|].
+        rewrite (Hc x) by (apply in_rev; rewrite Er; left; reflexivity). reflexivity. }
+      setw W true. cbn [map ptext]. destruct acc; [contradiction | reflexivity].
+    + assert (W : is_word_piece O {| pstart := start; ptext := rev acc |} = false).
+      { unfold is_word_piece, piece_cls. cbn [ptext]. destruct (rev acc) as [|x r] eqn:Er; [reflexivity|].
+        unfold cls_of. rewrite (Hc x) by (apply in_rev; rewrite Er; left; reflexivity). reflexivity. }
+      setw W false. reflexivity.
+  - assert (Hp' : forall d, In d s -> is_space O d = false -> is_paren d = false) by (intros d Hd; apply Hp; right; exact Hd).
+    cbn [split_acc split_ws_acc]. destruct (is_space O c) eqn:Ec.
+    + assert (Kc : cls_of O c = CSpace) by (unfold cls_of; rewrite Ec; reflexivity). rewrite Kc.
+      destruct Hk as [[-> [Ha Hc]]|[-> [Ha Hc]]]; cbn [cls_eqb andb negb].
+      * assert (W : is_word_piece O {| pstart := start; ptext := rev acc |} = true).
+        { unfold is_word_piece, piece_cls. cbn [ptext]. destruct (rev acc) as [|x r] eqn:Er; [exfalso; apply (rev_ne _ Ha); exact Er|].
+          rewrite (Hc x) by (apply in_rev; rewrite Er; left; reflexivity). reflexivity. }
+        cbn [filter]. setw W true. cbn [map ptext]. destruct acc as [|a0 acc0]; [contradiction|]. f_equal.
+        apply (IH pos CSpace [c] (pos + 1) Hp'). right. split; [reflexivity | split; [discriminate | intros d [<-|[]]; exact Ec]].
+      * apply (IH start CSpace (c :: acc) (pos + 1) Hp'). right.
+        split; [reflexivity | split; [discriminate | intros d [<-|Hd]; [exact Ec | apply Hc; exact Hd]]].
+    + assert (Kc : cls_of O c = CText) by (unfold cls_of; rewrite Ec, (Hp c (or_introl eq_refl) Ec); reflexivity). rewrite Kc.
+      destruct Hk as [[-> [Ha Hc]]|[-> [Ha Hc]]]; cbn [cls_eqb andb negb].
+      * apply (IH start CText (c :: acc) (pos + 1) Hp'). left.
+        split; [reflexivity | split; [discriminate | intros d [<-|Hd]; [exact Kc | apply Hc; exact Hd]]].
+      * assert (W : is_word_piece O {| pstart := start; ptext := rev acc |} = false).
+        { unfold is_word_piece, piece_cls. cbn [ptext]. destruct (rev acc) as [|x r] eqn:Er; [reflexivity|].
+          unfold cls_of. rewrite (Hc x) by (apply in_rev; rewrite Er; left; reflexivity). reflexivity. }
+        cbn [filter]. setw W false.
+        apply (IH pos CText [c] (pos + 1) Hp'). left. split; [reflexivity | split; [discriminate | intros d [<-|[]]; exact Kc]].
+Qed.
+
+Theorem words_split s : (forall c, In c s -> is_space O c = false -> is_paren c = false) -> words O s = split_ws O s.
+Proof.
+  intro Hp. unfold words, pieces, split_ws. destruct s as [|c s]; [reflexivity|].
+  assert (Hp' : forall d, In d s -> is_space O d = false -> is_paren d = false) by (intros d Hd; apply Hp; right; exact Hd).
+  cbn [split_ws_acc]. destruct (is_space O c) eqn:Ec.
+  - assert (Kc : cls_of O c = CSpace) by (unfold cls_of; rewrite Ec; reflexivity). rewrite Kc.
+    apply (words_split_acc s 0 CSpace [c] 1 Hp'). right. split; [reflexivity | split; [discriminate | intros d [<-|[]]; exact Ec]].
+  - assert (Kc : cls_of O c = CText) by (unfold cls_of; rewrite Ec, (Hp c (or_introl eq_refl) Ec); reflexivity). rewrite Kc.
+    apply (words_split_acc s 0 CText [c] 1 Hp'). left. split; [reflexivity | split; [discriminate | intros d [<-|[]]; exact Kc]].
+Qed.
+
+(* every character of a text that is not white space is in one of its words *)
+Lemma split_acc_covers : forall s acc c, In c acc \/ In c s -> is_space O c = false -> nospace O acc ->
+  exists w, In w (split_ws_acc O acc s) /\ In c w.
+Proof.
+  induction s as [|d s IH]; intros acc c Hin Hc Ha; cbn [split_ws_acc].
+  - destruct Hin as [Hin|[]]. destruct acc as [|a acc']; [destruct Hin|]. exists (rev (a :: acc')). split; [left; reflexivity | apply -> in_rev; exact Hin].
+  - destruct (is_space O d) eqn:Ed.
+    + destruct Hin as [Hin|[<-|Hin]].
+      * destruct acc as [|a acc']; [destruct Hin|]. exists (rev (a :: acc')). split; [left; reflexivity | apply -> in_rev; exact Hin].
+      * congruence.
+      * destruct (IH [] c (or_intror Hin) Hc eq_refl) as [w [Hw Hcw]]. exists w. split; [|exact Hcw]. destruct acc; [exact Hw | right; exact Hw].
+    + apply (IH (d :: acc) c); [|exact Hc | apply nospace_cons; split; assumption].
+      destruct Hin as [Hin|[<-|Hin]]; [left; right; exact Hin | left; left; reflexivity | right; exact Hin].
+Qed.
 
 End LowerSplit.
 
@@ -311,10 +373,13 @@ Proof.
     assert (En : norm_spaces O a = join_sp ws) by reflexivity.
     pose proof Hpl as Hpl'. rewrite En in Hpl'. pose proof (plain_words ws Hws Hpl') as Hct.
     assert (El : lwords O (norm_spaces O a) = map (lower O) ws) by (unfold lwords; rewrite En, (words_join O sp_is_space ws Hct); reflexivity).
-    rewrite El in *. unfold ws at 1. rewrite <- (norm_alias_words O lower_space lower_nospace a).
+    assert (Ea : lwords O a = map (lower O) ws).
+    { unfold lwords. rewrite (words_split O a); [reflexivity|]. intros c Hc Hs. apply Hpl. rewrite En.
+      destruct (split_acc_covers O a [] c (or_intror Hc) Hs eq_refl) as [w [Hw Hcw]]. apply (join_chars ws w c Hw Hcw). }
+    rewrite El in *.
     unfold entry_names. apply (ou_in str_eqb str_eqb_eq). right. apply in_or_app. left. apply filter_In. split.
-    + apply in_map. exact Ha.
-    + rewrite (norm_alias_words O lower_space lower_nospace a). fold ws.
+    + replace (join_sp (map (lower O) ws)) with (norm_alias O a) by (unfold norm_alias; rewrite Ea; reflexivity). apply in_map. exact Ha.
+    + 
       assert (Wl : Forall (word O) (map (lower O) ws)).
       { apply Forall_forall. intros w Hw. apply in_map_iff in Hw as [w0 [<- Hw0]]. rewrite Forall_forall in Hws.
         apply (lower_word O lower_nospace w0 (Hws w0 Hw0)). }
